@@ -28,7 +28,7 @@ from contracts.common import lit_axioms
 
 PROP = 'C10'
 
-FLOWS = {'Sense_word', 'Sense_synset', 'Word_senses', 'Word_synsets', 'Word_derived_words', 'Synset_senses',
+FLOWS = {'Sense__iter_sense_synset_relations', 'Sense__iter_sense_relations', 'Sense_word', 'Sense_synset', 'Word_senses', 'Word_synsets', 'Word_derived_words', 'Synset_senses',
          'Synset_words', 'Synset_lemmas', 'Synset_translate', 'Sense_translate', 'Word_translate', 'Wordnet_word', 'Wordnet_synset',
          'Wordnet_sense'}
 QUERIES = {'get_entry_senses', 'get_synset_members', 'find_entries', 'find_synsets', 'find_senses'}
